@@ -261,6 +261,7 @@ func runC01(ctx *Ctx) {
 	}
 	projects = append(projects, includeGraphs(r)...)
 	projects = append(projects, macroGraphs(r)...)
+	projects = append(projects, schemaPlaceProjects()...)
 	projects = append(projects, SingleFile(nil), SingleFile([]byte{0}), SingleFile([]byte("\xff\xfe")), SingleFile([]byte(strings.Repeat("(\n", 5000))),
 		SingleFile([]byte("JSIGHT 0.3\nURL /a\n"+strings.Repeat("(\n URL /a\n", 800))), SingleFile([]byte("JSIGHT 0.3\nTYPE @t\n"+strings.Repeat("[", 3000))))
 
@@ -313,4 +314,47 @@ func runC01(ctx *Ctx) {
 		}
 	}
 	ctx.Cov.Component("every project ends in a catalog or a JApiError, in a child process with a time limit (specification on the implementation)", len(projects), len(ctx.Violations), "")
+}
+
+
+// schemaPlaceProjects: every SHAPE of schema body — objects, scalars, arrays, references to user types of every notation
+// (object, scalar, regex, any, empty, enum-ruled, recursive, undefined), "or" rules with and without "type", enum rules,
+// allOf, nullable, additionalProperties, nested objects, empty values — at every PLACE that takes a schema: Path (where
+// the body is taken apart by core/compile_catalog.go and core/path_variables.go), Query, Headers, request / response
+// bodies, Params / Result, TYPE. The stages behind the catalog construction must answer with a catalog or a diagnostic.
+func schemaPlaceProjects() []Project {
+	decls := "TYPE @obj\n{\"id\": 1}\nTYPE @scalar\n1\nTYPE @re regex\n/ab/\nTYPE @anyT any\nTYPE @emptyT empty\nTYPE @arr\n[1]\n" +
+		"TYPE @short\n@obj\nTYPE @orT\n@obj | @scalar\nTYPE @rec\n{\n  \"id\": 1,\n  \"next\": @rec // {optional: true}\n}\nENUM @e\n[1, 2]\n" +
+		"TYPE @inh\n{} // {allOf: \"@obj\"}\nTYPE @enumT\n1 // {enum: @e}\n"
+	bodies := []string{
+		"@obj", "@scalar", "@re", "@anyT", "@emptyT", "@arr", "@short", "@orT", "@rec", "@inh", "@enumT", "@undefined", "@obj | @scalar", "[@obj]",
+		"{\"id\": 1}", "{}", "[]", "1", "\"s\"", "null", "{\"id\": @obj}", "{\"id\": @re}", "{\"id\": @scalar}", "{\"id\": @undefined}",
+		"{\n  \"id\": 1 // {or: [{min: 1}, {type: \"string\"}]}\n}", "{\n  \"id\": 1 // {or: [{type: \"integer\"}, \"@scalar\"]}\n}",
+		"{\n  \"id\": 1 // {or: [\"@re\", \"@obj\"]}\n}", "{\n  \"id\": 1 // {or: [{enum: [1, 2]}, {type: \"string\"}]}\n}", "{\n  \"id\": 1 // {or: []}\n}",
+		"{\n  \"id\": 1 // {type: \"@scalar\"}\n}", "{\n  \"id\": 1 // {type: \"@re\"}\n}", "{\n  \"id\": 1 // {type: \"mixed\"}\n}", "{\n  \"id\": 1 // {enum: [1, 2]}\n}",
+		"{\n  \"id\": 1 // {enum: @e}\n}", "{\n  \"id\": 1 // {enum: @undefinedEnum}\n}", "{\n  \"id\": 1 // {nullable: true}\n}", "{\n  \"id\": 1 // {optional: true}\n}",
+		"{\"id\": 1} // {additionalProperties: true}", "{\"id\": 1} // {nullable: true}", "{\"id\": 1} // {allOf: \"@obj\"}", "{} // {allOf: [\"@obj\", \"@rec\"]}",
+		"{} // {allOf: \"@re\"}", "{} // {allOf: \"@scalar\"}", "{\"id\": {\"deep\": 1}}", "{\"id\": [1, 2]}", "{\"id\": {}}", "{\"id\": []}",
+		"{\"id\": 1, \"id\": 2}", "{\"other\": 1}", "{\"id\": 1, \"other\": 2}", "{@obj: 1}", "{\n  \"id\": 1 // {const: true}\n}", "{\n  \"id\": 1.5 // {precision: 1}\n}",
+		"{\"id\": \"x\" // {regex: \"[\"}}", "{\n  \"id\": 1 // {min: \"a\"}\n}", "{\n  \"id\": 1 // {type: 5}\n}", "{\n  \"id\": 1 // {or: 5}\n}", "{\n  \"id\": 1 // {or: [5]}\n}", "{\n  \"id\": 1 // {or: [{}]}\n}",
+	}
+	places := []string{
+		"GET /cats/{id}\n  Path\n  %s\n  200 any\n",
+		"URL /cats/{id}\n  Path\n  %s\n  GET\n    200 any\n  POST\n    200 any\n",
+		"GET /a/{id}/b/{id2}\n  Path\n  %s\n  200 any\nGET /a/{id}\n  200 any\n",
+		"GET /cats\n  Query\n  %s\n  200 any\n",
+		"POST /cats\n  Request\n    Headers\n    %s\n    Body any\n  200 any\n",
+		"GET /cats\n  200\n    Headers\n    %s\n    Body any\n",
+		"POST /cats\n  Request\n  %s\n  200\n  %s\n",
+		"URL /rpc\n  Protocol json-rpc-2.0\n  Method m\n    Params\n    %s\n    Result\n    %s\n",
+		"TYPE @fresh\n%s\nGET /cats\n  200 @fresh\n",
+	}
+	var out []Project
+	for _, pl := range places {
+		for _, b := range bodies {
+			doc := "JSIGHT 0.3\n" + strings.ReplaceAll(pl, "%s", b) + decls
+			out = append(out, SingleFile([]byte(doc)))
+		}
+	}
+	return out
 }
